@@ -70,16 +70,37 @@ type SpecFn struct {
 	Src    string
 }
 
+// UFun is an uninterpreted specification function with definitional (recursive) axioms.
+type UFun struct {
+	Name   string
+	Pkg    string
+	Params []string
+	PTypes []string
+	RType  string
+	Axioms []*UAxiom
+	Where  string
+}
+
+type UAxiom struct {
+	Src      string
+	E        Expr
+	Triggers []Expr
+	Induct   string // non-empty: a lemma proved by induction on this parameter
+	ExtraNames []string // further universally quantified scalar variables of a lemma
+	ExtraTypes []string
+}
+
 type Contracts struct {
 	Fns      map[string]*FnContract
 	TypeInvs map[string]*TypeInv
 	Specs    map[string]*SpecFn
+	UFuns    map[string]*UFun
 	Files    []string
 	Errors   []string
 }
 
 func newContracts() *Contracts {
-	return &Contracts{Fns: map[string]*FnContract{}, TypeInvs: map[string]*TypeInv{}, Specs: map[string]*SpecFn{}}
+	return &Contracts{Fns: map[string]*FnContract{}, TypeInvs: map[string]*TypeInv{}, Specs: map[string]*SpecFn{}, UFuns: map[string]*UFun{}}
 }
 
 var (
@@ -99,6 +120,7 @@ func (cs *Contracts) LoadContractFile(path, pkgPath string, external bool) {
 	var cur *FnContract
 	var curLoop *LoopContract
 	var curInv *TypeInv
+	var curUFun *UFun
 	lines := strings.Split(string(data), "\n")
 	for ln := 0; ln < len(lines); ln++ {
 		raw := lines[ln]
@@ -162,6 +184,7 @@ func (cs *Contracts) LoadContractFile(path, pkgPath string, external bool) {
 			cs.Fns[cur.Key] = cur
 			curLoop = nil
 			curInv = nil
+			curUFun = nil
 			continue
 		case word == "typeinv":
 			parts := strings.Fields(rest)
@@ -171,6 +194,68 @@ func (cs *Contracts) LoadContractFile(path, pkgPath string, external bool) {
 			}
 			cs.TypeInvs[curInv.Key] = curInv
 			cur = nil
+			curUFun = nil
+			continue
+		case word == "ufun":
+			// ufun name(a T, b U) R   -- uninterpreted spec function with definitional axioms
+			m := regexp.MustCompile(`^(\w+)\((.*?)\)\s*([\w\[\]\*\.]+)\s*$`).FindStringSubmatch(rest)
+			if m == nil {
+				fail("bad ufun")
+				continue
+			}
+			curUFun = &UFun{Name: m[1], RType: m[3], Pkg: pkgPath, Where: where}
+			for _, p := range splitTop(m[2], ',') {
+				f := strings.Fields(strings.TrimSpace(p))
+				if len(f) == 2 {
+					curUFun.Params = append(curUFun.Params, f[0])
+					curUFun.PTypes = append(curUFun.PTypes, f[1])
+				}
+			}
+			cs.UFuns[curUFun.Name] = curUFun
+			cur, curInv = nil, nil
+			continue
+		case word == "axiom" && curUFun != nil:
+			e, err := ParseExpr(rest)
+			if err != nil {
+				fail(err.Error())
+				continue
+			}
+			curUFun.Axioms = append(curUFun.Axioms, &UAxiom{Src: rest, E: e})
+			continue
+		case strings.HasPrefix(word, "lemma[") && curUFun != nil:
+			// lemma[k] expr : proved by induction on parameter k, then available as an axiom
+			// the bracket may contain spaces: re-split on the closing bracket
+			br := strings.Index(text, "]")
+			if br < 0 {
+				fail("bad lemma header")
+				continue
+			}
+			spec := text[len("lemma["):br]
+			e, err := ParseExpr(strings.TrimSpace(text[br+1:]))
+			if err != nil {
+				fail(err.Error())
+				continue
+			}
+			ua := &UAxiom{Src: strings.TrimSpace(text[br+1:]), E: e}
+			ind, extras, _ := strings.Cut(spec, ";")
+			ua.Induct = strings.TrimSpace(ind)
+			for _, ex := range strings.Split(extras, ",") {
+				f := strings.Fields(ex)
+				if len(f) == 2 {
+					ua.ExtraNames = append(ua.ExtraNames, f[0])
+					ua.ExtraTypes = append(ua.ExtraTypes, f[1])
+				}
+			}
+			curUFun.Axioms = append(curUFun.Axioms, ua)
+			continue
+		case word == "trigger" && curUFun != nil && len(curUFun.Axioms) > 0:
+			e, err := ParseExpr(rest)
+			if err != nil {
+				fail(err.Error())
+				continue
+			}
+			ax := curUFun.Axioms[len(curUFun.Axioms)-1]
+			ax.Triggers = append(ax.Triggers, e)
 			continue
 		case word == "spec":
 			// spec name(a int, b int) int = expr
